@@ -749,7 +749,9 @@ impl<'a> Gen<'a> {
                "origin": format!("{wkw}/{n_members} members/{}{}", if two_modules { "imported" } else { "single" },
                                  // the word and the structure have the same member types in the same order (the input class of
                                  // the open finding C02-imported-struct-and-word-same-layout-abort)
-                                 if wmembers.len() == smembers.len() && wmembers.iter().zip(smembers.iter()).all(|(a, b)| a == b) { "/same-layout" } else { "" }),
+                                 // (the layout as LLVM sees it: i8 and u8 are both i8 there; prims[0..8] are the signed / unsigned pairs of a width)
+                                 if wmembers.len() == smembers.len()
+                                     && wmembers.iter().zip(smembers.iter()).all(|(a, b)| a == b || (*a < 8 && *b < 8 && a / 2 == b / 2)) { "/same-layout" } else { "" }),
                "mods": mods})
     }
 
